@@ -219,20 +219,16 @@ Qed.
 
 (* the event {proposal <= t} in terms of the uniform draw: P(x' <= t) = (t/x - a)/(1/a - a) *)
 Definition scale_cdf (a x t : R) : R := (t / x - a) / (/ a - a).
+Lemma affine_event a D x u t : 0 < D -> 0 < x -> ((a + u * D) * x <= t <-> u <= (t / x - a) / D).
+Proof.
+  intros HD Hx. rewrite <- (Rle_div_r u _ D HD). rewrite (Rle_div_r (a + u * D) t x Hx). split; lra.
+Qed.
 Lemma scaler_event a x u t : 0 < a < 1 -> 0 < x ->
   (scaler_s NumR a u * x <= t <-> u <= scale_cdf a x t).
 Proof.
   intros Ha Hx. pose proof (scaler_window a Ha) as W.
-  unfold scaler_s, scale_cdf; cbn [add mul sub div one NumR]. unfold Rdiv. rewrite Rmult_1_l.
-  split; intros H.
-  - apply Rmult_le_reg_r with (/ a - a); [exact W|].
-    replace ((t * / x - a) * / (/ a - a) * (/ a - a)) with (t * / x - a) by (field; lra).
-    apply Rmult_le_reg_r with x; [exact Hx|].
-    replace ((t * / x - a) * x) with (t - a * x) by (field; lra). nra.
-  - apply Rmult_le_compat_r with (r := / a - a) in H; [|lra].
-    replace ((t * / x - a) * / (/ a - a) * (/ a - a)) with (t * / x - a) in H by (field; lra).
-    apply Rmult_le_compat_r with (r := x) in H; [|lra].
-    replace ((t * / x - a) * x) with (t - a * x) in H by (field; lra). nra.
+  unfold scaler_s, scale_cdf; cbn [add mul sub div one NumR]. unfold Rdiv at 1. rewrite Rmult_1_l.
+  apply affine_event; assumption.
 Qed.
 
 (* density of the proposal = derivative of that distribution function *)
@@ -241,7 +237,8 @@ Lemma scale_density_derive a x t : 0 < a < 1 -> 0 < x ->
   is_derive (scale_cdf a x) t (scale_density a x).
 Proof.
   intros Ha Hx. pose proof (scaler_window a Ha) as W.
-  unfold scale_cdf, scale_density. auto_derive; [lra|]. field. split; lra.
+  unfold scale_cdf, scale_density. remember (/ a - a) as D eqn:ED. clear ED.
+  auto_derive; [exact I|]. field. split; lra.
 Qed.
 
 (* the reverse move x' -> x is a scaling by 1/s, which lies in the same window (so the reverse
@@ -266,8 +263,9 @@ Proof.
   assert (0 < s) by lra.
   split; [apply scaler_reverse_in_window; assumption|].
   split; [unfold x'; field; lra|].
-  cbn [opp nln NumR]. unfold scale_density, x'.
-  replace (/ (s * x * (/ a - a)) / / (x * (/ a - a))) with (/ s) by (field; repeat split; lra).
+  cbn [opp nln NumR]. unfold scale_density, x'. clearbody s.
+  remember (/ a - a) as D eqn:ED. clear ED.
+  replace (/ (s * x * D) / / (x * D)) with (/ s) by (field; repeat split; lra).
   rewrite ln_Rinv; [reflexivity | assumption].
 Qed.
 
@@ -278,16 +276,14 @@ Lemma sliding_event w x u t : 0 < w ->
 Proof.
   intros Hw. unfold sliding_shift, slide_cdf; cbn [mul sub ofQ NumR].
   replace (Q2R (1 # 2)) with (/ 2) by (unfold Q2R; simpl; lra).
-  split; intros H.
-  - apply Rmult_le_reg_r with w; [exact Hw|].
-    replace (((t - x) / w + / 2) * w) with (t - x + w / 2) by (field; lra). nra.
-  - apply Rmult_le_compat_r with (r := w) in H; [|lra].
-    replace (((t - x) / w + / 2) * w) with (t - x + w / 2) in H by (field; lra). nra.
+  rewrite <- (Rplus_0_l ((t - x) / w + / 2)).
+  replace (0 + ((t - x) / w + / 2)) with ((t - x + w / 2) / w) by (field; lra).
+  rewrite <- (Rle_div_r u _ w Hw). split; lra.
 Qed.
 Definition slide_density (w : R) : R := / w.
 Lemma slide_density_derive w x t : 0 < w -> is_derive (slide_cdf w x) t (slide_density w).
 Proof.
-  intros Hw. unfold slide_cdf, slide_density. auto_derive; [lra|]. field. lra.
+  intros Hw. unfold slide_cdf, slide_density. auto_derive; [exact I|]. field. lra.
 Qed.
 Lemma sliding_shift_range w u : 0 < w -> 0 < u < 1 ->
   - (w / 2) < sliding_shift NumR w u < w / 2.
@@ -340,12 +336,8 @@ Lemma prec_uniform_event s u t : 1 < s ->
   (prec_mult_uniform NumR s u <= t <-> u <= (t - / s) / (s - / s)).
 Proof.
   intros Hs. destruct (block_len_pos s Hs) as [L _].
-  unfold prec_mult_uniform; cbn [add mul sub div one NumR]. unfold Rdiv at 1 2. rewrite Rmult_1_l.
-  split; intros H.
-  - apply Rmult_le_reg_r with (s - / s); [exact L|].
-    replace ((t - / s) / (s - / s) * (s - / s)) with (t - / s) by (field; split; lra). nra.
-  - apply Rmult_le_compat_r with (r := s - / s) in H; [|lra].
-    replace ((t - / s) / (s - / s) * (s - / s)) with (t - / s) in H by (field; split; lra). nra.
+  unfold prec_mult_uniform; cbn [add mul sub div one NumR]. unfold Rdiv at 1 2. rewrite !Rmult_1_l.
+  rewrite <- (Rle_div_r u _ (s - / s) L). split; lra.
 Qed.
 
 Lemma prec_loguniform_event s u t : 1 < s -> 0 < t ->
@@ -375,7 +367,9 @@ Lemma prec_density_derive s t : 1 < s -> 0 < t ->
   is_derive (prec_cdf s) t (prec_density s t).
 Proof.
   intros Hs Ht. destruct (block_len_pos s Hs) as [L Hl].
-  unfold prec_cdf, prec_density. auto_derive.
+  unfold prec_cdf, prec_density. cbv zeta.
+  remember (s - / s) as L0 eqn:E0. remember (ln s) as ls eqn:E1. remember (/ s) as si eqn:E2.
+  clear E0 E1 E2. auto_derive.
   - repeat split; lra.
   - field. repeat split; lra.
 Qed.
@@ -397,7 +391,10 @@ Proof.
     assert (0 < / m) by (apply Rinv_0_lt_compat; lra). lra. }
   split; [exact Hf|].
   replace (bwd / fwd) with 1; [apply ln_1|].
-  unfold bwd, fwd, prec_density, tau'. field. repeat split; lra.
+  unfold bwd, fwd, prec_density, tau'.
+  assert (HC : 0 < s - / s + 2 * ln s) by lra.
+  remember (s - / s + 2 * ln s) as C0 eqn:EC. clear EC.
+  field. repeat split; lra.
 Qed.
 
 (* ======================================================================================== *)
@@ -636,4 +633,5 @@ Ltac dirichlet_id_tac :=
     | rewrite <- exp_Ropp, Ropp_involutive; apply exp_ln; exact H
     | unfold Rdiv; rewrite ?Rmult_1_l; rewrite ln_Rinv by exact H; rewrite exp_Ropp, exp_ln by exact H; rewrite Rinv_inv; reflexivity
     | unfold Rdiv; rewrite ?Rmult_1_l; rewrite ln_Rinv by exact H; rewrite Ropp_involutive; apply exp_ln; exact H
-    | unfold Rdiv; rewrite ?Rmult_1_l; rewrite exp_ln by exact H; apply Rinv_inv ].
+    | unfold Rdiv; rewrite ?Rmult_1_l; rewrite exp_ln by exact H; apply Rinv_inv
+    | unfold Rdiv; rewrite ?Rmult_1_l; rewrite exp_Ropp; rewrite exp_ln by exact H; apply Rinv_inv ].
